@@ -136,6 +136,10 @@ def eval_case(desc, ctx):
                               time_reversal=rev, names=["release_time", "X", "Y", "Z", "weight"], reference=desc.get("ref"))
         conf["state"] = {"particle_variables": {"weight": "float"}}
         conf["output"]["particle_variables"] = {"weight": {"encoding": {"datatype": "f8"}, "attributes": {}}}
+        if (N + p + numrec) % 2 == 0:
+            # in half of the runs the only particle is killed (by an IBM given by path) at step 1: the rest of the run has
+            # no particles at all and must still write every due record, each in its file
+            conf["ibm"] = {"module": str(Path(__file__).resolve().parents[1] / "plugins" / "kill_ibm.py"), "kill": {1: [0]}}
         try:
             rl.run_main(conf, d)
         except BaseException as e:  # noqa: BLE001
